@@ -139,6 +139,10 @@ structure Cfg where
   compress : Bool
   deriving Repr, DecidableEq
 
+/-- `PdfWriter::object_streams_enabled` (repair 4d9cdfbe of C03-F2): the user's `use_object_streams`
+takes effect only together with `use_xref_streams`; every function below reads the EFFECTIVE flag -/
+def Cfg.effective (user : Cfg) : Cfg := { user with objStreams := user.objStreams && user.xrefStreams }
+
 structure WState where
   out : List Nat
   pos : Nat
@@ -307,6 +311,13 @@ def xrefStreamDict (n root info : Nat) (w : Nat × Nat × Nat) (len : Nat) : Lis
   [(kType, kXRefName), (kSize, dec n), (kRoot, refBytes root), (kInfo, refBytes info),
    (kW, arr3 w.1 w.2.1 w.2.2), (kIndex, arr2 0 n), (kFilter, kFlate), (kLength, dec len)]
 
+/-- the dictionary `PdfWriter::write_xref_stream` really emits: when not compressing, the
+`/Filter` that `create_dictionary` set is removed again (`dict.remove("Filter")`, repair 67304722;
+before it the dictionary was `xrefStreamDict` under both settings) -/
+def xrefStreamDictCfg (compress : Bool) (n root info : Nat) (w : Nat × Nat × Nat) (len : Nat) : List DictE :=
+  if compress then xrefStreamDict n root info w len
+  else (xrefStreamDict n root info w len).filter (fun e => e.1 != kFilter)
+
 /-- data of the cross-reference stream as written -/
 def xrefStreamData (cfg : Cfg) (z : List Nat → List Nat) (es : List Entry) : List Nat :=
   if cfg.compress then z (encodeEntries (widths es) es) else encodeEntries (widths es) es
@@ -315,7 +326,7 @@ def xrefStreamData (cfg : Cfg) (z : List Nat → List Nat) (es : List Entry) : L
 def xrefStreamTail (cfg : Cfg) (z : List Nat → List Nat) (perm : List DictE → List DictE)
     (es : List Entry) (root info sid xrefPos : Nat) : List Nat :=
   let data := xrefStreamData cfg z es
-  objHeader sid ++ emitDict (perm (xrefStreamDict es.length root info (widths es) data.length)) ++ [10] ++
+  objHeader sid ++ emitDict (perm (xrefStreamDictCfg cfg.compress es.length root info (widths es) data.length)) ++ [10] ++
     kStream.drop 1 ++ data ++ kEndstream ++ [10] ++ kEndobjNl.drop 1 ++ kStartxref ++ dec xrefPos ++ kEof
 
 /-! ## the whole file -/
